@@ -134,11 +134,23 @@ def rule_partial_discovery(check, rule):
         # (D59) one exit before it is legitimate: plain retrieval of the partial object itself raised ValueError -- the real function
         # cannot take what the partial binds, there is no signature to discover
         plain_failed = False
+        # ... recognised as: the raising call is the plain retrieval of the partial object / of its function's own def, or the mask of
+        # *that* signature (not of the discovered one), before discovery runs
+        af_lines = [c_.lineno for c_ in ast.walk(fi.node) if isinstance(c_, ast.Call) and norm(c_.func) == 'autoforwards']
+        plain_names = set()
+        for a_ in ast.walk(fi.node):
+            if isinstance(a_, ast.Assign) and isinstance(a_.value, ast.Call) and norm(a_.value.func).endswith('_signatures.signature') \
+                    and a_.value.args and norm(a_.value.args[0]) in (pobj[1], '%s.func' % pobj[1]):
+                plain_names.update(t_.id for t_ in a_.targets if isinstance(t_, ast.Name))
         for a, pol in p.lits:
-            if a[0] == 'raises' and pol and a[2] == 'ValueError':
+            if a[0] == 'raises' and pol and 'ValueError' in str(a[2]):
                 for c_ in ast.walk(fi.node):
-                    if isinstance(c_, ast.Call) and c_.lineno == a[1][0] and norm(c_.func).endswith('_signatures.signature') and c_.args \
-                            and norm(c_.args[0]) == pobj[1]:
+                    if not (isinstance(c_, ast.Call) and c_.lineno == a[1][0] and (not af_lines or c_.lineno < min(af_lines))):
+                        continue
+                    if (norm(c_.func).endswith('_signatures.signature') or norm(c_.func).endswith('cleanup_functools_wrapper')) and c_.args \
+                            and norm(c_.args[0]) in (pobj[1], '%s.func' % pobj[1]):
+                        plain_failed = True
+                    if norm(c_.func).split('.')[-1] in ('_mask', 'mask') and c_.args and isinstance(c_.args[0], ast.Name) and c_.args[0].id in plain_names:
                         plain_failed = True
         if not has and p.status == 'raise' and plain_failed:
             check.holds(rule, st, 'leaves before discovery only when plain retrieval of the partial object itself fails', key='autoforwards_partial|plain-failed')
